@@ -25,6 +25,8 @@ func ArpaLabels() []string {
 		"arpa-", "com", "é", "\xff", "-", "_a", "K", "ın-addr", "x255", "host100", "::ffff:4", "::4",
 		// ACE labels whose decoded form is plain ASCII: what IDNA conversion hands back is not what came in
 		"xn--4-", "xn--in-addr-", "xn--arpa-", "xn--ip6-",
+		// the ACE prefix is recognised in lower case only: these are ordinary labels
+		"XN--0", "Xn---", "xN--",
 	}
 }
 
@@ -37,7 +39,7 @@ var arpaRoots = []string{
 
 var quickRoots = []string{"in-addr.arpa", "IN-ADDR.ARPA", "In-Addr.Arpa.", "ip6.arpa", "Ip6.arpa.", "in-addr.arpa.", "xin-addr.arpa", "in-addr.arpa.x"}
 
-var v4PrefixLabels = []string{"0", "1", "9", "10", "99", "100", "255", "256", "00", "01", "000", "1a", "a", "", "-1", "+1", "0x1", "1e1", "é", "１", "0377", "25５", "host192", "1234", "x255", "::ffff:4", "0:0:0:0:0:ffff:4", "1_0", "2_5_5", "1__0", "/", ":", "xn--4-", "xn--10-"}
+var v4PrefixLabels = []string{"0", "1", "9", "10", "99", "100", "255", "256", "00", "01", "000", "1a", "a", "", "-1", "+1", "0x1", "1e1", "é", "１", "0377", "25５", "host192", "1234", "x255", "::ffff:4", "0:0:0:0:0:ffff:4", "1_0", "2_5_5", "1__0", "/", ":", "xn--4-", "xn--10-", "XN--0"}
 
 var hexd = "0123456789abcdef"
 
@@ -224,6 +226,10 @@ func NameFamilies(thorough bool) []Family {
 			name := sb.String() + tail
 			lens = append(lens, name, name+".")
 		}
+	}
+	// upper-case pseudo-ACE labels in bulk (ordinary labels: a name made of them is as long as it looks)
+	for _, n := range []int{20, 26, 27, 28, 40} {
+		lens = append(lens, Rep("XN--abc-.", n)+"10.in-addr.arpa", Rep("Xn--0.", n)+"com", Rep("XN--abc-.", n)+"1.ip6.arpa")
 	}
 	// names that shrink under IDNA conversion: ACE labels of basic code points only ("xn--a-" is "a"), so that
 	// the raw text is far longer than 253 bytes (or has far more than 253 characters) while the converted name is short
